@@ -84,6 +84,10 @@ def gen_parts(rng, boundary):
             if rng.chance(1, 2):
                 hs.append((rng.choice(["content-length", "CONTENT-TRANSFER-ENCODING", "content-id", "Content-language"]), rng.choice(["3", "binary", "<a@b>", "en"])))
         kind, body = gen_body(rng, boundary)
+        if rng.chance(1, 12):
+            # headers that announce an encoding, with a body that looks encoded: the library stores and returns bytes, it does not decode
+            hs = hs[:2] + [(rng.choice(["Content-Transfer-Encoding", "content-transfer-encoding", "Content-Encoding"]), rng.choice(["base64", "BASE64", "quoted-printable", "7bit", "8bit", "binary", "gzip", "x-uuencode"]))]
+            kind, body = "looks-encoded", rng.choice([b"QUJD", b"QUJDRA==", b"SGVsbG8gd29ybGQ=\r\nSGVsbG8=", b"=41=42=\r\n=43", b"%41%42", b"&amp;&#65;", b"\x1f\x8b\x08\x00", b"begin 644 x\r\n#0V%T\r\nend", b"YWJj\r\n"])
         parts.append({"headers": hs[:4], "body": body, "kind": kind})
     return parts
 
